@@ -114,20 +114,34 @@ func VerifyUnit(ld *Loaded, u *FuncUnit, cfg *Config) (res *UnitResult) {
 		fr.oldVals = splitTuple(x, ov)
 	}
 	exit, results := x.runFunc(fr, st)
+	if !exit.dead && !exit.reach.IsFalse() && len(fn.Blocks) > 0 {
+		// vacuity guard: the function can return (assumed callee contracts, loop invariants and
+		// collected facts are not contradictory on every path)
+		o := &Obligation{Name: x.unitName() + "#cover:return", Kind: "cover", Func: x.unitName(), Hyp: exit.reach, Goal: tb.False, Cover: true, Props: u.C.Props}
+		x.obls = append(x.obls, o)
+	}
 	// explicit atomic-step contracts are checked as ordinary postconditions over ghost state; nothing here
 	if u.Post != nil && !exit.dead {
-		pargs := append([]Val{}, args...)
-		pargs = append(pargs, splitTuple(x, results)...)
-		pargs = append(pargs, fr.oldVals...)
-		post, facts := x.runSpecF(u.Post, exit, x.entry, pargs)
-		x.assume(exit, facts)
-		for k, c := range u.C.Ensures {
-			lbl := fmt.Sprintf("%d", k)
-			if c.Label != "" {
-				lbl = c.Label
+		// one obligation per postcondition and return point: no merged state, no merged results
+		exs := x.topExits
+		if len(exs) == 0 {
+			exs = []exitRec{{exit, results}}
+		}
+		for _, e := range exs {
+			pargs := append([]Val{}, args...)
+			pargs = append(pargs, splitTuple(x, e.res)...)
+			pargs = append(pargs, fr.oldVals...)
+			est := e.st.clone()
+			post, facts := x.runSpecF(u.Post, est, x.entry, pargs)
+			x.assume(est, facts)
+			for k, c := range u.C.Ensures {
+				lbl := fmt.Sprintf("%d", k)
+				if c.Label != "" {
+					lbl = c.Label
+				}
+				x.curProps = x.propsOf(c, u)
+				x.addObl(&Frame{lpkg: u.Pkg, fn: fn}, est, "post", nil, lbl, post.L[k])
 			}
-			x.curProps = x.propsOf(c, u)
-			x.addObl(&Frame{lpkg: u.Pkg, fn: fn}, exit, "post", nil, lbl, post.L[k])
 		}
 		x.curProps = u.C.Props
 	}
@@ -186,6 +200,7 @@ func (x *Exec) runSpecF(fn *ssa.Function, st *State, old *State, args []Val) (Va
 	}
 	sub := st.clone()
 	sub.reach = x.tb.True
+	sub.pc = nil
 	ex, res := x.runFunc(nf, sub)
 	return res, ex.reach
 }
@@ -227,6 +242,8 @@ func (o *Obligation) queryOpt(all bool, absMul bool) string {
 			h = tb.DropQuant(h, true)
 		}
 		as = append(as, sliceHyp(h, o.Goal, o.noQuant)...)
+	} else if o.noQuant && !o.Cover {
+		as = append(as, tb.DropQuant(o.Hyp, true))
 	} else {
 		as = append(as, o.Hyp)
 	}
@@ -464,8 +481,25 @@ func dischargeOne(o *Obligation, cfg *Config) {
 				}
 			}
 		}
-		o.noQuant = false
 		o.slice = false
+		if os.Getenv("GOVC_DEBUG_SLICE") != "" && o.Goal.hasBnd {
+			g := tb0(o).Show(o.Goal)
+			if len(g) > 1500 {
+				g = g[:1500]
+			}
+			fmt.Fprintf(os.Stderr, "goal with binder %s: %s\n", o.Name, g)
+		}
+		if strings.Contains(qp, "(forall") && !o.Goal.hasBnd {
+			// all hypotheses, quantified ones dropped (ground goal)
+			qq := o.queryOpt(false, false)
+			if os.Getenv("GOVC_DEBUG_SLICE") != "" {
+				fmt.Fprintf(os.Stderr, "noquant %s: %d -> %d bytes\n", o.Name, len(qp), len(qq))
+			}
+			if len(qq) < len(qp) {
+				weak = append([]weakQuery{{qq, "(noquant)"}}, weak...)
+			}
+		}
+		o.noQuant = false
 	}
 	o.x.mu.Unlock()
 	o.QuerySz = len(qp)
@@ -480,8 +514,12 @@ func dischargeOne(o *Obligation, cfg *Config) {
 		o.Res = SolveResult{Status: "toolarge"}
 		return
 	}
-	r := Solve(qp, qa, weak, cfg.TimeoutMs)
-	if r.Status != "unsat" && r.Status != "sat" {
+	tmo := cfg.TimeoutMs
+	if o.Cover && tmo > 8000 {
+		tmo = 8000
+	}
+	r := Solve(qp, qa, weak, tmo)
+	if r.Status != "unsat" && r.Status != "sat" && !o.Cover {
 		// one retry with a doubled budget (loaded machine)
 		r2 := Solve(qp, qa, weak, cfg.TimeoutMs*2)
 		r2.Tried = append(r.Tried, r2.Tried...)
@@ -491,8 +529,15 @@ func dischargeOne(o *Obligation, cfg *Config) {
 	switch {
 	case o.Cover && r.Status == "sat":
 		o.Status = "discharged"
+	case o.Cover && r.Status == "unsat" && o.Advisory:
+		o.Status = "discharged"
+		o.Res.Solver += "(UNREACHABLE)"
 	case o.Cover && r.Status == "unsat":
-		o.Status = "failed" // vacuous precondition
+		o.Status = "failed" // vacuous: the hypotheses are contradictory
+	case o.Cover:
+		// not refuted within the budget (quantified hypotheses): a cover only fails on unsat
+		o.Status = "discharged"
+		o.Res.Solver += "(cover-not-refuted)"
 	case !o.Cover && r.Status == "unsat":
 		o.Status = "discharged"
 	case !o.Cover && r.Status == "sat":
@@ -595,3 +640,5 @@ func diagConj(o *Obligation, conj []*Term) string {
 	}
 	return sb.String()
 }
+
+func tb0(o *Obligation) *TB { return o.x.tb }
